@@ -554,3 +554,4 @@ def run(ctx, led):
     run_rule(led, "F11", "ZIP-ALIGNMENT: nothing is selected from one side before two parallel sequences are zipped", fznrules.zip_alignment, ctx)
     from . import C09 as _C09
     run_rule(led, "F12", "LINFORM: the arithmetic constraint builders mean what they say (shared with C09-R10)", _C09.r10, ctx)
+    run_rule(led, "F13", "BOOLFORM: the Boolean builtins post constraints with the truth table of the FlatZinc builtin (abstract evaluation, all assignments)", fznrules.boolform, ctx)
